@@ -25,6 +25,7 @@ func vCheckAgreement(a, b *Association, ilA, ilB, zA, zB bool) {
 	vassert(a.peerLastTSN() == b.myNextTSN-1 && b.peerLastTSN() == a.myNextTSN-1, "each side expects the peer's initial TSN")
 	vassert(a.peerVerificationTag == b.myVerificationTag && b.peerVerificationTag == a.myVerificationTag, "verification tags agree")
 	vassert(a.maxPayloadSize == b.maxPayloadSize, "both sides fragment to the same payload size")
+	vassert(!a.t1Init.isRunning() && !a.t1Cookie.isRunning() && !b.t1Init.isRunning() && !b.t1Cookie.isRunning(), "no handshake timer is left running on an established association")
 }
 
 // C04.L1: client/server handshake over real marshalled packets, all 2^4 option
